@@ -295,3 +295,90 @@ Proof.
   destruct (o_res (step (acc_get a (w_accs w)) (mkV (c_value c) (c_total c)) o)) eqn:E; cbn [fst snd w_accs];
     rewrite ?acc_get_set_same; auto.
 Qed.
+
+(* ---- the world (several accumulators, long-lived handles) stays inside [hist] ---- *)
+(* the property's domain read off the state instead of the trace *)
+Definition sdom (st : astore) (o : op) : Prop :=
+  match o with
+  | OGrow c => sorted c /\ nonneg c
+  | ONew n s => p_get n (a_pos st) = None /\ 0 <= s
+  | ONewIA n s ia => p_get n (a_pos st) = None /\ 0 <= s /\ sorted ia
+  | OAddIA _ _ ia | ORemoveIA _ _ ia | OUpdateIA _ _ ia | OSetIA _ ia => sorted ia
+  | OAddUnclaimed _ c => sorted c
+  | _ => True
+  end.
+
+Lemma sdom_dom : forall tr st o, hist tr st -> sdom st o -> dom tr o.
+Proof.
+  intros tr st o Hh Hs. destruct (hist_inv tr st Hh) as [H1 _].
+  destruct o; cbn in *; auto.
+  - destruct Hs as [Hg Hz]. split; [|exact Hz]. apply (proj1 (live_get tr st n H1)). exact Hg.
+  - destruct Hs as [Hg Hz]. split; [|exact Hz]. apply (proj1 (live_get tr st n H1)). exact Hg.
+Qed.
+
+(* every accumulator of the world is either not yet made (nothing stored) or the end of some history *)
+Definition wgood (w : world) : Prop :=
+  forall a, acc_get a (w_accs w) = empty_astore \/ exists tr, hist tr (acc_get a (w_accs w)).
+
+(* the receiver a world call uses: the stored handle, or a freshly fetched one *)
+Definition used_rv (w : world) (a h : Z) (fresh : bool) : option recv :=
+  match (if fresh then None else h_get a h (w_handles w)) with
+  | Some rv => Some rv
+  | None => match get_accumulator (acc_get a (w_accs w)) with Ok rv => Some rv | _ => None end
+  end.
+
+Definition wadmissible (w : world) (o : wop) : Prop :=
+  match o with
+  | WMake _ _ => True
+  | WOp a h fresh o' =>
+      forall rv, used_rv w a h fresh = Some rv ->
+                 recv_ok (acc_get a (w_accs w)) rv o' /\ sdom (acc_get a (w_accs w)) o'
+  end.
+
+Lemma init_wgood : wgood init_world.
+Proof. intros a. left. reflexivity. Qed.
+
+Lemma wstep_wgood : forall w o, wgood w -> wadmissible w o -> wgood (snd (wstep w o)).
+Proof.
+  intros w o Hg Ha b. destruct o as [a bad|a h fresh o].
+  - cbn [wstep]. destruct bad.
+    + cbn. apply Hg.
+    + cbn [make_accumulator]. unfold make_accumulator.
+      destruct (a_content (acc_get a (w_accs w))) eqn:Ec; cbn [snd]; [apply Hg|].
+      cbn [w_accs]. destruct (Z.eq_dec b a) as [->|Hne].
+      * rewrite acc_get_set_same. right. exists [].
+        destruct (Hg a) as [He|[tr Hh]].
+        -- rewrite He. exact hist0.
+        -- destruct (hist_inv1 tr _ Hh) as [c [Hc _]]. congruence.
+      * rewrite acc_get_set_other by exact Hne. apply Hg.
+  - cbn [wadmissible] in Ha. unfold used_rv in Ha. cbn [wstep].
+    destruct (if fresh then None else h_get a h (w_handles w)) as [rv|] eqn:Eh.
+    + destruct (Ha rv eq_refl) as [Hrv Hsd].
+      destruct (Hg a) as [He|[tr Hh]].
+      { destruct Hrv as [c [Hc _]]. rewrite He in Hc. discriminate. }
+      pose proof (histS tr _ rv o Hh (sdom_dom tr _ o Hh Hsd) Hrv) as Hn. unfold apply in Hn.
+      destruct (o_res (step (acc_get a (w_accs w)) rv o)) eqn:Er; cbn [snd w_accs fst] in *.
+      * destruct (Z.eq_dec b a) as [->|Hne]; [rewrite acc_get_set_same; right; eauto|rewrite acc_get_set_other by exact Hne; apply Hg].
+      * destruct (Z.eq_dec b a) as [->|Hne]; [rewrite acc_get_set_same; right; eauto|rewrite acc_get_set_other by exact Hne; apply Hg].
+      * apply Hg.
+    + destruct (get_accumulator (acc_get a (w_accs w))) as [rv|e|] eqn:Eg; cbn [snd]; try apply Hg.
+      destruct (Ha rv eq_refl) as [Hrv Hsd].
+      destruct (Hg a) as [He|[tr Hh]].
+      { destruct Hrv as [c [Hc _]]. rewrite He in Hc. discriminate. }
+      pose proof (histS tr _ rv o Hh (sdom_dom tr _ o Hh Hsd) Hrv) as Hn. unfold apply in Hn.
+      destruct (o_res (step (acc_get a (w_accs w)) rv o)) eqn:Er; cbn [snd w_accs fst] in *.
+      * destruct (Z.eq_dec b a) as [->|Hne]; [rewrite acc_get_set_same; right; eauto|rewrite acc_get_set_other by exact Hne; apply Hg].
+      * destruct (Z.eq_dec b a) as [->|Hne]; [rewrite acc_get_set_same; right; eauto|rewrite acc_get_set_other by exact Hne; apply Hg].
+      * apply Hg.
+Qed.
+
+Fixpoint wrun (w : world) (ops : list wop) : world :=
+  match ops with [] => w | o :: r => wrun (snd (wstep w o)) r end.
+Fixpoint wadmissible_all (w : world) (ops : list wop) : Prop :=
+  match ops with [] => True | o :: r => wadmissible w o /\ wadmissible_all (snd (wstep w o)) r end.
+
+Lemma wrun_wgood : forall ops w, wgood w -> wadmissible_all w ops -> wgood (wrun w ops).
+Proof.
+  induction ops as [|o r IH]; intros w Hg Ha; [exact Hg|].
+  destruct Ha as [Ha1 Ha2]. cbn [wrun]. apply IH; [apply wstep_wgood; assumption|exact Ha2].
+Qed.
